@@ -36,6 +36,7 @@ deriving Repr
 structure SSess where
   id : Int
   views : List SView
+  broker : Nat := 0
 deriving Repr
 
 structure SSt where
@@ -44,6 +45,7 @@ structure SSt where
   bounds : List Bounds := []
   prods : List (Int × SProd) := []
   sess : List SSess := []
+  via : Nat := 0          -- the broker the client talks to (sessions live on one broker)
 deriving Repr
 
 def sinit (np : Nat) : SSt := { logs := List.replicate np [], bounds := List.replicate np ⟨0, 0, 0⟩ }
@@ -195,7 +197,7 @@ def specStep (st : SSt) (op : Op) (out : Out) (nb : List Bounds) : SSt × Option
     | .addp k _ ps, .addp r =>
       if r.all (fun e => e.2 == 0) && !r.isEmpty then (sp st k (addReg (gp st k) st.now ps), none) else (st, none)
     | .prod v12 k epoch seq n nbytes q tx, .prod code base _ =>
-      if q ≥ np then (st, none) else
+      if q ≥ np || code == 6 then (st, none) else   -- unknown partition / not the leader: the request never reached the log
       let log := st.logs.getD q []
       -- registration mirrored from KIP-890: a v12+ transactional produce adds the partition to the transaction
       let st0 := if v12 && tx && k ≥ 0 && (gp st k).inited then sp st k (addReg (gp st k) st.now [q]) else st
@@ -231,6 +233,8 @@ def specStep (st : SSt) (op : Op) (out : Out) (nb : List Bounds) : SSt × Option
         let p := gp st k
         if p.started.isSome || !p.opens.isEmpty then (closeTx st [k] commit, none) else (st, none)
     | .del _ _, .codeVal _ _ => (st, none)
+    | .move _ _, .ok => (st, none)
+    | .via b, .ok => ({ st with via := b }, none)
     | .sleep ms, .ok =>
       let s1 := { st with now := st.now + ms }
       (closeTx s1 (expiring s1) false, none)
@@ -271,12 +275,12 @@ def specStep (st : SSt) (op : Op) (out : Out) (nb : List Bounds) : SSt × Option
         | none => match views.find? (fun v => v.p == p) with | some v => v.off | none => 0
       let firstP : Option Nat := f.req.head?.map (·.p)
       if f.sepoch == -1 then
-        ({ st2 with sess := if f.sid > 0 then st2.sess.filter (fun s => s.id != f.sid) else st2.sess },
+        ({ st2 with sess := if f.sid > 0 then st2.sess.filter (fun s => !(s.id == f.sid && s.broker == st2.via)) else st2.sess },
          firstSome (ps.map (fun r => fetchPartKey st2 f.rc (offOf [] r.p) (firstP == some r.p) r)))
       else if f.sepoch == 0 then
         let views := viewSeen (f.req.foldl viewUpdate []) ps
-        let sess0 := if f.sid > 0 then st2.sess.filter (fun s => s.id != f.sid) else st2.sess
-        ({ st2 with sess := sess0 ++ [⟨sid, views⟩] },
+        let sess0 := if f.sid > 0 then st2.sess.filter (fun s => !(s.id == f.sid && s.broker == st2.via)) else st2.sess
+        ({ st2 with sess := sess0 ++ [⟨sid, views, st2.via⟩] },
          firstSome (ps.map (fun r => fetchPartKey st2 f.rc (offOf [] r.p) (firstP == some r.p) r)))
       else
         match st2.sess.find? (fun s => s.id == f.sid) with
@@ -290,7 +294,7 @@ def specStep (st : SSt) (op : Op) (out : Out) (nb : List Bounds) : SSt × Option
           -- nothing but the readable batches from each session partition's fetch offset on
           let k2 := if availBytes st2 f.rc views1 ≤ f.maxBytes then sessionKey st2 f.rc views1 ps else none
           let views2 := viewSeen views1 ps
-          ({ st2 with sess := st2.sess.map (fun s => if s.id == se.id then ⟨se.id, views2⟩ else s) },
+          ({ st2 with sess := st2.sess.map (fun s => if s.id == se.id then ⟨se.id, views2, se.broker⟩ else s) },
            match k1 with | some k => some k | none => k2)
     | _, _ => (st2, none)
   (st3, firstSome [key, lsKey, bKey, fKey])
